@@ -161,6 +161,12 @@ def run(ctx, config='rel-all'):
     # lose elements, i.e. run a destructor twice or never.  The formula clauses (O2) and the unwind typestate (R6) of C13.
     from . import c13
     c13.run(runner.Sub(ctx, 'R7', 'C13', only={'O2', 'R6', 'O3', 'O4'}), config)
+    # ---- R8 / R9 (requirement side, so that added code is judged): the draining types advance the iterator over the elements they own
+    # by next / next_back only (a forwarded nth / advance_by abandons elements), and the owning iterator types are built only by
+    # their analysed constructors (IntoIter encodes zero-sized lengths in the address of `end`)
+    from . import ownership
+    ownership.inner_iterator(ctx, db, 'R8')
+    ownership.constructors(ctx, db, 'R9')
     mu = ps.may_user()
     for b in db.fn_bodies():
         m = b['meta']
